@@ -1045,10 +1045,9 @@ class StructOf(DataType):
             raise errcls('struct element %s is invalid' % key) from e
 
     def check_type(self, value, allow_optional=False):
-        try:
-            superfluous = set(dict(value)) - set(self.members)
-        except TypeError:
-            raise WrongTypeError(f'{type(value).__name__} can not be converted a StructOf') from None
+        if not isinstance(value, dict):
+            raise WrongTypeError(f'{type(value).__name__} can not be converted a StructOf')
+        superfluous = set(value) - set(self.members)
         if superfluous - set(self.optional):
             raise WrongTypeError(f"struct contains superfluous members: {', '.join(superfluous)}")
         missing = set(self.members) - set(value)
